@@ -47,7 +47,8 @@ def gterm(rng, d):
             return ('py', rng.choice(['None', 'None', '2.5', '-0.5', "b'a'", '()', '(1, 2)']))
         return ('s', rng.choice(['a', 'b', '']))
     if r < 0.7:
-        name, n = rng.choice([('f', 1), ('f', 2), ('g', 2), ('g', 2), ('h', 3), ('a', 1), ('fo', 2), ('foo', 2), ('ga', 2)])
+        # (zero-argument compound terms f() are terms too - not the atom f, not f/1)
+        name, n = rng.choice([('f', 1), ('f', 2), ('g', 2), ('g', 2), ('h', 3), ('a', 1), ('fo', 2), ('foo', 2), ('ga', 2), ('f', 0), ('a', 0), ('ab', 0)])
         return C(name, *[gterm(rng, d - 1) for _ in range(n)])
     items = [gterm(rng, d - 1) for _ in range(rng.choice([1, 2, 3]))]
     if rng.random() < 0.4:
